@@ -27,6 +27,19 @@ var initAllow = map[string]bool{
 }
 
 func (i *interpreter) intrinsicFor(fn *ssa.Function) intrinsicFn {
+	if js := i.ex.job.Stubs; len(js) > 0 {
+		// per-job stubs are resolved on every call (not cached across jobs)
+		name, ok := i.fnNames[fn]
+		if !ok {
+			name = fn.String()
+			i.fnNames[fn] = name
+		}
+		if target, ok := js[name]; ok {
+			if st := i.ex.run.stubTarget(name, target); st != nil {
+				return st
+			}
+		}
+	}
 	if f, ok := i.intrinsicCache[fn]; ok {
 		return f
 	}
